@@ -15,7 +15,7 @@ from ..gen import mdgen
 
 ID = "C13"
 PROPS_FILE = "Props/C13.v"
-GEN_DEPS: List[str] = ["GenRegex"]
+GEN_DEPS: List[str] = ["GenRegex", "GenBrace", "GenChars"]
 ALLOWED_AXIOMS: List[str] = []
 THEOREMS: Dict[str, str] = {
     "C13_model_example": "example",
@@ -79,6 +79,13 @@ class _SentinelMixin:
     def render_scaled_value_expression(self, el: Any) -> str:
         return self._tok(("brace", el._rgv_source))
 
+    def render_plain_text(self, el: Any) -> str:
+        # image alt text: marko renders the children with render_plain_text (never through the mixin)
+        from marko import HTMLRenderer
+        if type(el).__name__ == "ScaledValueExpression":
+            return self._tok(("alt", el._rgv_source, el.children, HTMLRenderer.render_plain_text(self, el)))
+        return HTMLRenderer.render_plain_text(self, el)
+
     def render_heading(self, el: Any) -> str:
         return self._tok(("hopen", el.level)) + self.render_children(el) + self._tok(("hclose",))
 
@@ -94,11 +101,11 @@ class _SentinelMixin:
         return self._code(el, True)
 
 
-def structure(text: str) -> List[Any]:
+def structure(text: str) -> Tuple[List[Any], List[Tuple[str, str]]]:
     """The abstract item list: marko's own parse (RecipeGrid elements) rendered by marko's own renderer,
     cut at headings / brace expressions / code blocks.
-    items: ("lit", html) | ("brace", src) | ("heading", level, [("lit", h) | ("brace", src)]) |
-           ("code", fenced, lang, src, pos, plain_html)"""
+    items: ("lit", html) | ("brace", src) | ("alt", src) | ("heading", level, [("lit", h) | ("brace", src) | ("alt", src)]) |
+           ("code", fenced, lang, src, pos, plain_html);  second result: marko's escape_html as (text, escaped) pairs"""
     from marko import Markdown
     M = _M()
 
@@ -111,6 +118,7 @@ def structure(text: str) -> List[Any]:
     tab = md.renderer.tab
     parts = re.split(f"{S0}([0-9]+){S1}", out)
     items: List[Any] = []
+    esc: List[Tuple[str, str]] = []
     cur: Optional[List[Any]] = None
     level = 0
     for i, p in enumerate(parts):
@@ -121,6 +129,10 @@ def structure(text: str) -> List[Any]:
         t = tab[int(p)]
         if t[0] == "brace":
             (cur if cur is not None else items).append(("brace", t[1]))
+        elif t[0] == "alt":
+            (cur if cur is not None else items).append(("alt", t[1]))
+            if (t[2], t[3]) not in esc:
+                esc.append((t[2], t[3]))
         elif t[0] == "hopen":
             assert cur is None
             cur, level = [], t[1]
@@ -132,10 +144,17 @@ def structure(text: str) -> List[Any]:
             assert cur is None
             items.append(("code",) + tuple(t[1:]))
     assert cur is None
-    return items
+    return items, esc
 
 
-def run_impl(text: str, seed: Optional[int] = None) -> Dict[str, Any]:
+def scales_for(i: Optional[int]) -> List[Any]:
+    """k = 1 and one other factor for most documents, all four for every fifth (and for hand-written ones)."""
+    if i is None or i % 5 == 0:
+        return list(SCALES)
+    return [1, SCALES[1 + i % 3]]
+
+
+def run_impl(text: str, seed: Optional[int] = None, scales: Optional[List[Any]] = None) -> Dict[str, Any]:
     """compile_markdown + render at every scale, recording the placeholders drawn."""
     M = _M()
     rec: List[str] = []
@@ -155,27 +174,36 @@ def run_impl(text: str, seed: Optional[int] = None) -> Dict[str, Any]:
     finally:
         M.generate_placeholder = orig
     try:
-        htmls = [cm.render(k) for k in SCALES]
+        htmls = [cm.render(k) for k in (scales or SCALES)]
     except Exception as e:
         return {"exception": "render:" + type(e).__name__, "msg": str(e)[:200]}
-    return {"placeholders": rec, "cm": cm, "htmls": htmls}
+    return {"placeholders": rec, "cm": cm, "htmls": htmls, "scales": list(scales or SCALES)}
 
 
 # ---------------------------------------------------------------- Gallina encoders
 
+def _s(x: str) -> str:
+    """Like coqio.string, written with the short names of Gen/GenChars.v (about 3x faster to load)."""
+    if not x:
+        return "(@nil N)"
+    return "[" + ";".join((f"c{ord(ch)}" if ord(ch) < 256 else str(ord(ch))) for ch in x) + "]%N"
+
+
 def _inl(x: Any) -> str:
-    return f"(ILit {c.string(x[1])})" if x[0] == "lit" else f"(IBrace {c.string(x[1])})"
+    return f"({ {'lit': 'ILit', 'brace': 'IBrace', 'alt': 'IAlt'}[x[0]]} {_s(x[1])})"
 
 
 def _item(x: Any) -> str:
     if x[0] == "lit":
-        return f"(Lit {c.string(x[1])})"
+        return f"(Lit {_s(x[1])})"
     if x[0] == "brace":
-        return f"(Brace {c.string(x[1])})"
+        return f"(Brace {_s(x[1])})"
+    if x[0] == "alt":
+        return f"(Alt {_s(x[1])})"
     if x[0] == "heading":
         return f"(Heading {c.n_(x[1])} {c.lst([_inl(y) for y in x[2]], 'inl')})"
     _, fenced, lang, src, pos, plain = x
-    return f"(Code {c.boolean(fenced)} {c.string(lang)} {c.string(src)} {c.n_(pos)} {c.string(plain)})"
+    return f"(Code {c.boolean(fenced)} {_s(lang)} {_s(src)} {c.n_(pos)} {_s(plain)})"
 
 
 def _trees(r: Any) -> str:
@@ -238,6 +266,13 @@ def value_html(parts: List[Any], k: Any) -> str:
     return out
 
 
+def alt_text(parts: List[Any]) -> str:
+    """Inside image alt text: the content as plain text, not scaled (attribute text escaped by marko)."""
+    from marko import HTMLRenderer
+    from recipe_grid.number_formatting import format_number
+    return HTMLRenderer.escape_html("".join(p if isinstance(p, str) else format_number(p) for p in parts))
+
+
 def squash(x: str) -> str:
     """Layout-insensitive comparison: line breaks and the blanks around them do not count."""
     return re.sub(r"\s*\n\s*", "", x)
@@ -296,6 +331,7 @@ def oracle(gd: Optional[mdgen.GenDoc], text: str, impl: Dict[str, Any]) -> Tuple
     if "exception" in impl:
         return f"compile_markdown / render raised {impl['exception']}: {impl.get('msg', '')}", notes
     cm, htmls = impl["cm"], impl["htmls"]
+    SCALES = impl["scales"]
     # (a) no placeholder residue
     for k, h in zip(SCALES, htmls):
         m = PLACEHOLDER_RE.search(h)
@@ -306,7 +342,7 @@ def oracle(gd: Optional[mdgen.GenDoc], text: str, impl: Dict[str, Any]) -> Tuple
                 return f"placeholder {p} left in the output at scale {k}", notes
     # (b) independent of the random generator's state and of earlier compilations
     for sd in (1, 987654321):
-        again = run_impl(text, seed=sd)
+        again = run_impl(text, seed=sd, scales=SCALES)
         if "exception" in again or again["htmls"] != htmls:
             return f"output differs under random.seed({sd})", notes
         if sd == 1:
@@ -336,12 +372,13 @@ def oracle(gd: Optional[mdgen.GenDoc], text: str, impl: Dict[str, Any]) -> Tuple
         notes.append("plain-comparison-skipped")
         return None, notes
     prose = [(i, b) for i, b in enumerate(gd.braces) if b.prose]
+    alts = [(i, b) for i, b in enumerate(gd.braces) if b.alt]
     heads = [t for t in ptab if t[0] == "h"]
     if len(heads) != len(gd.headings):
         notes.append("heading-count-mismatch")
         return None, notes
     everything = pout + "".join(t[2] for t in heads)
-    if any(mdgen.sentinel(i) not in everything for i, _ in prose):
+    if any(mdgen.sentinel(i) not in everything for i, _ in prose + alts):
         notes.append("sentinel-lost")
         return None, notes
     # the generator's belief about which braces stand in prose must be what marko parsed
@@ -351,13 +388,13 @@ def oracle(gd: Optional[mdgen.GenDoc], text: str, impl: Dict[str, Any]) -> Tuple
     flat = {id(r): (gi + 1, r) for gi, g in enumerate(direct) for r in g}
     order = [r for g in direct for r in g]
     for k, h in zip(SCALES, htmls):
-        alts: List[str] = [""]
+        cands: List[str] = [""]
         hi = 0
         bi = 0
         pieces = re.split(f"{S0}([0-9]+){S1}", pout)
         for j, p in enumerate(pieces):
             if j % 2 == 0:
-                alts = [a + p for a in alts]
+                cands = [a + p for a in cands]
                 continue
             t = ptab[int(p)]
             if t[0] == "code":
@@ -366,9 +403,9 @@ def oracle(gd: Optional[mdgen.GenDoc], text: str, impl: Dict[str, Any]) -> Tuple
                     bi += 1
                     gi = flat[id(r)][0]
                     div = '<div class="rg-recipe-block">' + "\n".join(tables_of(r, k, id_prefix(gi))) + "</div>"
-                    alts = [a + div for a in alts]
+                    cands = [a + div for a in cands]
                 else:
-                    alts = [a + t[4] for a in alts]
+                    cands = [a + t[4] for a in cands]
                 continue
             _, level, inner = t
             info = gd.headings[hi]
@@ -395,11 +432,13 @@ def oracle(gd: Optional[mdgen.GenDoc], text: str, impl: Dict[str, Any]) -> Tuple
                 else:
                     choices = [plain_h, unsc] + ([sc] if sc else [])
             hi += 1
-            alts = [a + ch for a in alts for ch in choices]
+            cands = [a + ch for a in cands for ch in choices]
         ok = False
-        for a in alts:
+        for a in cands:
             for i, b in prose:
                 a = a.replace(mdgen.sentinel(i), value_html(b.parts, k))
+            for i, b in alts:
+                a = a.replace(mdgen.sentinel(i), alt_text(b.parts))
             if squash(a) == squash(h):
                 ok = True
                 break
@@ -411,14 +450,15 @@ def oracle(gd: Optional[mdgen.GenDoc], text: str, impl: Dict[str, Any]) -> Tuple
 
 # ---------------------------------------------------------------- cases
 
-def doc_case(text: str, gd: Optional[mdgen.GenDoc], tags: List[str]) -> Optional[Case]:
-    impl = run_impl(text)
+def doc_case(text: str, gd: Optional[mdgen.GenDoc], tags: List[str], index: Optional[int] = None) -> Optional[Case]:
+    SCALES = scales_for(index)
+    impl = run_impl(text, scales=SCALES)
     tags = list(tags)
-    inp = {"text": text}
+    inp: Dict[str, Any] = {"text": text, "index": index}
     if gd is not None:
         inp["gen"] = {"plain": gd.plain, "comparable": gd.comparable,
                       "braces": [[b.body, None if b.parts is None else [p if isinstance(p, str) else c.num_json(p) for p in b.parts],
-                                  b.prose, b.where] for b in gd.braces],
+                                  b.prose, b.where, b.alt] for b in gd.braces],
                       "headings": [[h.level, h.kind, h.title, h.space, h.prep, h.count] for h in gd.headings]}
     if "exception" in impl:
         # compile errors of recipe blocks are outside C13 (C07 / C19): not a case
@@ -426,11 +466,11 @@ def doc_case(text: str, gd: Optional[mdgen.GenDoc], tags: List[str]) -> Optional
                                  "RecipeCompileError"):
             return None
         viol, _ = oracle(gd, text, impl)
-        return Case(input=inp, coq_in="(mkIn (mkDoc [] []) [] [] [] [])", coq_out="(mkObs false None [] [])",
+        return Case(input=inp, coq_in="(mkIn (mkDoc [] []) [] [] [] [] [])", coq_out="(mkObs false None [] [])",
                     impl={"exception": impl["exception"], "msg": impl.get("msg")}, violation=viol,
                     nontrivial=True, tags=tags + ["exception:" + impl["exception"]])
     cm, htmls = impl["cm"], impl["htmls"]
-    items = structure(text)
+    items, esc = structure(text)
     # oracle tables for the model
     blocks = [(it[1], it[2], it) for it in items if it[0] == "code" and is_recipe_block(it[1], it[2])]
     groups = split_groups(blocks)
@@ -439,22 +479,23 @@ def doc_case(text: str, gd: Optional[mdgen.GenDoc], tags: List[str]) -> Optional
     for gi, g in enumerate(groups):
         srcs = [padded(text, it[4], it[1], it[3]) for it in g]
         rs = compile(srcs)
-        ctab.append(c.pair(c.lst([c.string(x) for x in srcs], "str"), c.lst([_trees(r) for r in rs], "(list node)")))
+        ctab.append(c.pair(c.lst([_s(x) for x in srcs], "str"), c.lst([_trees(r) for r in rs], "(list node)")))
         for r in rs:
             tr = _trees(r)
             for k in SCALES:
-                rtab.append(c.pair(c.num(k), c.string(id_prefix(gi + 1)), tr,
-                                   c.lst([c.string(x) for x in tables_of(r, k, id_prefix(gi + 1))], "str")))
+                rtab.append(c.pair(c.num(k), _s(id_prefix(gi + 1)), tr,
+                                   c.lst([_s(x) for x in tables_of(r, k, id_prefix(gi + 1))], "str")))
     slugs = [p[1:-1] if len(p) >= 2 and p[0] == "%" and p[-1] == "%" else p for p in impl["placeholders"]]
-    coq_in = (f"(mkIn (mkDoc {c.string(text)} {c.lst([_item(x) for x in items], 'item')}) "
-              f"{c.lst([c.string(x) for x in slugs], 'str')} "
+    coq_in = (f"(mkIn (mkDoc {_s(text)} {c.lst([_item(x) for x in items], 'item')}) "
+              f"{c.lst([_s(x) for x in slugs], 'str')} "
+              f"{c.lst([c.pair(_s(a), _s(b)) for a, b in esc], '(str * str)')} "
               f"{c.lst(ctab, '(list str * list (list node))')} "
               f"{c.lst(rtab, '(num * str * list node * list str)')} "
               f"{c.lst([c.num(k) for k in SCALES], 'num')})")
     rec = c.lst([c.lst([_trees(r) for r in g], "(list node)") for g in cm.recipes], "(list (list node))")
     coq_out = (f"(mkObs {c.boolean(cm.title is not None)} "
                f"{c.opt(c.n_(cm.servings) if cm.servings is not None else None, 'N')} {rec} "
-               f"{c.lst([c.string(h) for h in htmls], 'str')})")
+               f"{c.lst([_s(h) for h in htmls], 'str')})")
     viol, notes = oracle(gd, text, impl)
     nb = sum(1 for it in items if it[0] == "brace" or (it[0] == "heading" and any(y[0] == "brace" for y in it[2])))
     tags += notes
@@ -471,9 +512,9 @@ def doc_case(text: str, gd: Optional[mdgen.GenDoc], tags: List[str]) -> Optional
 
 def _gd_from_json(text: str, g: Any) -> mdgen.GenDoc:
     gd = mdgen.GenDoc(text=text, plain=g["plain"], comparable=g["comparable"])
-    for body, parts, prose, where in g["braces"]:
+    for body, parts, prose, where, alt in g["braces"]:
         ps = None if parts is None else [p if isinstance(p, str) else c.num_unjson(p) for p in parts]
-        gd.braces.append(mdgen.BraceOcc(body, ps, prose, where))
+        gd.braces.append(mdgen.BraceOcc(body, ps, prose, where, alt))
     for h in g["headings"]:
         gd.headings.append(mdgen.HeadingInfo(*h))
     return gd
@@ -485,7 +526,7 @@ def _one_doc(args: Tuple[int, int]) -> Optional[Case]:
     gd = mdgen.gen_doc(rng)
     if len(gd.text) > 3500:
         return None
-    return doc_case(gd.text, gd, sorted(set(gd.tags)))
+    return doc_case(gd.text, gd, sorted(set(gd.tags)), index=i)
 
 
 HAND_DOCS = [
@@ -626,8 +667,8 @@ def gen_scan_texts(rng: random.Random, n: int) -> List[Tuple[str, str]]:
 # ---------------------------------------------------------------- driver interface
 
 def _suites_empty() -> Tuple[Suite, Suite, Suite, Suite]:
-    md = Suite(name="markdown", imports=["From RG Require Import Model.Recipe Model.Brace Model.Markdown."],
-               in_ty="md_in", out_ty="md_obs", check="check_md", show="show_md", shard=12)
+    md = Suite(name="markdown", imports=["From RG Require Import Gen.GenChars Model.Recipe Model.Brace Model.Markdown Spec.MarkdownSpec."],
+               in_ty="md_in", out_ty="md_obs", check="check_md_spec", show="show_md", shard=12)
     bp = Suite(name="brace", imports=["From RG Require Import Model.Recipe Model.Brace."],
                in_ty="str", out_ty="brace_obs", check="check_brace_parse", show="brace_parse", shard=400)
     sc = Suite(name="scan", imports=["From RG Require Import Model.Recipe Model.Brace."],
@@ -645,7 +686,7 @@ def suites(tier: str, seed: int) -> List[Suite]:
     n = 260 if tier == "quick" else 4000
     cases = pmap(_one_doc, [(seed, i) for i in range(n)])
     md.cases = [x for x in cases if x is not None]
-    md.cases += [x for x in (_one_hand(t) for t in HAND_DOCS) if x is not None]
+    md.cases += [x for x in (_one_hand(t) for t in HAND_DOCS + mdgen.IMAGE_ALT_DOCS) if x is not None]
     rng = random.Random(seed * 7919 + 13)
     nb = 600 if tier == "quick" else 8000
     seen = set()
@@ -660,7 +701,6 @@ def suites(tier: str, seed: int) -> List[Suite]:
             continue
         seen.add(tx)
         sc.cases.append(scan_case(tx, tag))
-    ia.cases = [image_alt_case(t) for t in mdgen.IMAGE_ALT_DOCS]
     return [md, bp, sc, ia]
 
 
@@ -672,7 +712,7 @@ def replay(inp: Any) -> Case:
     if "doc" in inp:
         return image_alt_case(inp["doc"])
     gd = _gd_from_json(inp["text"], inp["gen"]) if "gen" in inp else None
-    case = doc_case(inp["text"], gd, ["replay"])
+    case = doc_case(inp["text"], gd, ["replay"], index=inp.get("index"))
     assert case is not None, "the document's recipe blocks do not compile (outside C13)"
     return case
 
